@@ -7,6 +7,7 @@ model-side analogue of the seeded code defects; it is a development tool, not a 
 
   model_mutants.py run [ID ...] [--only <mutant-id>] [--timeout 900] [--keep]
   model_mutants.py table
+  model_mutants.py merge        (fold the RESULTS.<tag>.json of parallel `run --tag <tag>` invocations into RESULTS.json/md)
 
 lean/model_mutants/<ID>.json = [ {"id": ..., "file": "GT/Model/X.lean" (relative to lean/), "old": ..., "new": ...,
                                   "expect_broken": ["GT.Properties.<ID>", ...], "why": ...}, ... ]
@@ -99,10 +100,13 @@ def write_results(all_res):
     _write_results(all_res, whys)
 
 
+TAG = ""
+
+
 def _write_results(all_res, whys):
     os.makedirs(MM, exist_ok=True)
     old = {}
-    rp = os.path.join(MM, "RESULTS.json")
+    rp = os.path.join(MM, f"RESULTS{TAG}.json")
     if os.path.exists(rp):
         old = {(r["property"], r["id"]): r for r in json.load(open(rp))}
     for r in all_res:
@@ -112,7 +116,7 @@ def _write_results(all_res, whys):
             r["why"] = whys[k]
     rows = sorted(old.values(), key=lambda r: (r["property"], r["id"]))
     json.dump(rows, open(rp, "w"), indent=1, ensure_ascii=False)
-    with open(os.path.join(MM, "RESULTS.md"), "w") as fh:
+    with open(os.path.join(MM, f"RESULTS{TAG}.md"), "w") as fh:
         fh.write("# Model-side mutants\n\nGenerated by `tools/model_mutants.py run`. An edit to the Lean *model* must break a property theorem; "
                  "a survivor means no theorem of the property depends on that detail.\n\n")
         fh.write("`lake build` stops at the first module that fails, so a mutant that breaks in `Lemmas/*` never reaches the property file: it "
@@ -137,7 +141,7 @@ def _write_results(all_res, whys):
 
 def cmd_run(a):
     ids = a.ids or sorted(os.path.basename(f)[:-5] for f in glob.glob(os.path.join(MM, "C*.json")))
-    scratch = f"/tmp/model_mutants_{os.getpid()}"
+    scratch = f"/tmp/model_mutants_{os.getpid()}"      # one per invocation: parallel invocations do not interfere
     shutil.rmtree(scratch, ignore_errors=True)
     t = time.time()
     shutil.copytree(LEAN, scratch, symlinks=True, ignore=shutil.ignore_patterns(".audit", "model_mutants"))
@@ -165,6 +169,18 @@ def cmd_run(a):
     return 0
 
 
+def cmd_merge(a):
+    """fold RESULTS.<tag>.json files (written by parallel runs with --tag) into RESULTS.json / RESULTS.md"""
+    rows = []
+    for f in sorted(glob.glob(os.path.join(MM, "RESULTS.*.json"))):
+        rows += json.load(open(f))
+    write_results(rows)
+    for f in glob.glob(os.path.join(MM, "RESULTS.*.json")) + glob.glob(os.path.join(MM, "RESULTS.*.md")):
+        os.remove(f)
+    print(f"merged {len(rows)} rows")
+    return 0
+
+
 def cmd_table(a):
     p = os.path.join(MM, "RESULTS.md")
     print(open(p).read() if os.path.exists(p) else "no results yet")
@@ -179,10 +195,14 @@ if __name__ == "__main__":
     r.add_argument("--only")
     r.add_argument("--timeout", type=int, default=900)
     r.add_argument("--keep", action="store_true")
+    r.add_argument("--tag", default="", help="write RESULTS.<tag>.json/md (for parallel runs; fold with `merge`)")
     sub.add_parser("table")
+    sub.add_parser("merge")
     a = ap.parse_args()
+    if getattr(a, "tag", ""):
+        TAG = "." + a.tag
     try:
-        {"run": cmd_run, "table": cmd_table}.get(a.cmd, cmd_table)(a)
+        {"run": cmd_run, "table": cmd_table, "merge": cmd_merge}.get(a.cmd, cmd_table)(a)
     except Exception as e:      # a development tool: never fail a pipeline
         print("model_mutants:", type(e).__name__, e)
     sys.exit(0)
